@@ -9,6 +9,7 @@
 mod common;
 
 mod c02;
+mod conc;
 mod c12;
 mod c13;
 mod c17;
@@ -26,7 +27,7 @@ fn main() {
         std::process::exit(2);
     }
     let prop = args[2].clone();
-    if (prop == "C12" || prop == "C17") && std::env::var("VERIF_CHILD").is_err() {
+    if (prop == "C12" || prop == "C17" || prop == "C14" || prop == "C15" || prop == "C16") && std::env::var("VERIF_CHILD").is_err() {
         parent_per_case(&prop);
         return;
     }
@@ -85,6 +86,7 @@ fn new_exec(prop: &str, case_no: u64) -> Box<dyn CaseExec> {
         "C10" => Box::new(mgr::Exec::new(case_no)),
         "C12" => Box::new(c12::Exec::new(case_no)),
         "C13" => Box::new(c13::Exec::new(case_no)),
+        "C14" | "C15" | "C16" => Box::new(conc::Exec::new(case_no)),
         "C17" => Box::new(c17::Exec::new(case_no)),
         "C18" => Box::new(c18::Exec::new(case_no)),
         _ => {
